@@ -47,7 +47,7 @@ CHECKS.update({
         "Generated configs/scripts/abort points/handler decisions through 12 execute entry points (incl. breaker and no-retry policies); every RetryOutcome field is checked against the trace; only documented exception kinds may escape. A second stream uses the real clock with attempt timeouts that really fire (timing-independent oracle: attempts == invocations).",
         E1_NOTE + "; ABORTED outcomes are allowed to describe the last failure the loop recorded (abort_if is polled before a failure is recorded)", "DESIGN.md §3 C11"),
     "C13": _std("fault_enumeration", "Generated + exhaustively enumerated first-True poll index and cancellation points; poll-placement grammar oracle",
-        "abort_if turning True at every poll index of fixed runs (enumerated) and of generated runs; AbortRetryError / KeyboardInterrupt / SystemExit / CancelledError raised by the operation at attempt k; oracle: poll before every attempt and sleep, nothing after True, same exception object out, never classified.",
+        "abort_if turning True at every poll index of fixed runs (enumerated) and of generated runs; AbortRetryError / KeyboardInterrupt / SystemExit / CancelledError raised by the operation at attempt k; oracle: poll before every attempt and sleep, nothing after True, same exception object out, never classified. The poll before a sleep must come after the retry decision was announced (retry event), so a flag raised by the hook that sees it stops the sleep.",
         E1_NOTE + "; cancellation at await points and inside sleeps is covered by the C08 stepper", "DESIGN.md §3 C13"),
     "C14": _std("exploration", "Hypothesis-generated runs; event-grammar oracle (retry* terminal) with three-sink parity",
         "Generated runs with metric/log/both sinks and timeline capture; oracle is the grammar retry(attempt=i)* terminal, tag/stop-reason agreement with what is delivered, and metric/log/timeline parity, also while the metric or log hook raises on some or all events.",
@@ -65,13 +65,13 @@ CHECKS.update({
         "Differential oracle: the same generated case is executed through every entry point (Retry/Policy/RetryPolicy, from_config, context managers, @retry; call/execute; sync/async; plus breaker and no-retry groups) and the complete observable traces must be equal.",
         E1_NOTE + "; classifier invocations are excluded from the comparison; attempt hooks are compared only among entry points that deliver the result the same way (call with call, execute with execute; see DESIGN.md observations)", "DESIGN.md §3 C12"),
     "C15": _std("fault_enumeration", "Hypothesis-selected cases x exhaustive enumeration of (hook, invocation index | always) x rotating exception types; trace-equality metamorphic oracle",
-        "For every generated case each hook invocation is faulted in turn (and 'always'), with exception types rotating over 9 Exception subclasses; the observable trace must equal the silent-hook trace, including the other sink, the timeline, breaker and budget calls.",
+        "For every generated case each hook invocation is faulted in turn (and 'always'), with exception types rotating over 9 Exception subclasses; the observable trace must equal the silent-hook trace, including the other sink, the timeline, breaker and budget calls. Callers with both hooks, only one of them, and with or without an operation name.",
         E1_NOTE, "DESIGN.md §3 C15"),
     "C06": _std("exploration", "Model-based history generation (Hypothesis) + exhaustive short histories against an independent reference breaker model",
         "Generated breaker configurations (incl. the caller's trip_on set shared with another breaker and edited afterwards, thresholds up to 100) and operation histories with bursts and symbolic boundary advances (failure aged to exactly window_s overall / per class, recovery boundary); after every operation return value and state must equal an independent model; all histories up to length 5/6 over an 8-letter alphabet are enumerated for 3 configurations.",
         "the breaker reads time through time.monotonic (default clock) routed to a virtual clock; times on the exact k/64 s grid", "DESIGN.md §3 C06"),
     "C07": _std("exploration", "Model-based histories at component and policy level + generated interleavings of stepped coroutines (harness-owned schedule)",
-        "Three streams: component histories vs reference model; sequences of policy calls through mixed entry points sharing a real breaker with direct operations and exact-timeout clock advances; 2-4 AsyncPolicy calls stepped under generated interleavings with the invariant 'at most one admitted probe outstanding' and 'a call never admitted does not record'.",
+        "Three streams: component histories vs reference model; sequences of policy calls through mixed entry points sharing a real breaker with direct operations and exact-timeout clock advances; 2-4 AsyncPolicy calls stepped under generated interleavings with the invariant 'at most one admitted probe outstanding' and 'a call never admitted does not record'. A quarter of the interleaved calls carry a metric hook that raises KeyboardInterrupt/SystemExit/CancelledError when told of the rejection.",
         "straggler records are not flagged (the breaker API has no call identity); schedules are generated, not exhaustive", "DESIGN.md §3 C07"),
     "C10": _std("exploration", "Model-based history generation + exhaustive short histories for Budget; generated multi-policy runs sharing one budget vs window model",
         "Generated consume/remaining/advance histories (sizes 0..5 and 64..130, bulk costs, run-time changes of max_retries) with boundary ages against an independent window model plus the sliding-window bound; all histories up to length 6/7 enumerated for 4 configurations; 2-3 policies (sync and async) sharing a pre-aged budget, every consume result and every retry/budget_exhausted event checked against the model.",
@@ -80,7 +80,7 @@ CHECKS.update({
         "Generated exception types/attribute values/args (directed so that the attribute each classifier reads is present) checked for totality and against a table model written from the docstrings; every int in [-50,1100] in every position and every 5-char SQLSTATE over a 10-letter alphabet are enumerated; optional-library classifiers compared with default_classifier with their library made unimportable.",
         "the model leaves inputs the documentation does not pin (bools as codes, http 422, non-string sqlstate, non-ASCII message text) unchecked beyond totality; marker-over-code precedence asserted for default/strict only", "DESIGN.md §3 C19"),
     "C20": _std("exploration", "Grammar-based Hypothesis generation + exhaustive digit-length sweep + Atheris (libFuzzer, coverage-guided) campaigns with the semantic oracle in the target; end-to-end policy runs on a virtual clock",
-        "Generated Retry-After values (digit strings of any length, signs, whitespace, dates in five formats, garbage, non-strings) in 11 container shapes; every digit-string length up to 600/5000 enumerated; coverage-guided byte-level fuzzing of the header text from seeded and empty corpora with the same oracle; policies using http_retry_after_classifier + retry_after_or checked for min(rem,n) <= wait <= min(rem,n+jitter).",
+        "Generated Retry-After values (digit strings of any length, signs, whitespace, dates in five formats, garbage, non-strings) in 11 container shapes; every digit-string length up to 600/5000 enumerated; coverage-guided byte-level fuzzing of the header text from seeded and empty corpora with the same oracle; policies using http_retry_after_classifier + retry_after_or checked for min(rem,n) <= wait <= min(rem,n+jitter). The end-to-end runs also mix the 429s with failures of other classes under per-class strategies (retry_after_or registered for RATE_LIMIT only).",
         "what is a date is delegated to email.utils.parsedate_to_datetime; date hints are bracketed by real clock readings; Atheris campaigns are pinned only approximately by -seed/-runs (the saved input is the reproducible unit)", "DESIGN.md §3 C20"),
     "C17": _std("exploration", "Harness-owned thread scheduler: full depth-first enumeration of all schedules for 2-thread programs, pre-emption-bounded enumeration for generated larger programs; linearizability oracle",
         "The schedule is a generated/enumerated input: real threads run one at a time with every source line of circuit.py/budget.py as a pre-emption point and a cooperative lock. All schedules of every 2-thread/1-operation program from every initial state (two breaker configurations, one budget) are enumerated completely; Hypothesis-generated 2-3 thread programs are explored under all schedules with <= 2/3 pre-emptions. Each outcome must equal one produced by some sequential order; no deadlock. A third stream lets the clock advance between the threads' clock reads and checks the no-over-grant safety bound.",
